@@ -57,6 +57,7 @@ func init() {
 
 type c20Env struct {
 	st      *sut.Stack
+	st0     *sut.Stack // the same protocol with MaxOperationTimeDelta left at zero (the shipped configuration leaves it unset)
 	didTr   *didtransformer.Transformer
 	docTr   *doctransformer.Transformer
 	handler *dochandler.DocumentHandler
@@ -70,6 +71,9 @@ type c20Env struct {
 
 func newC20Env() (*c20Env, error) {
 	e := &c20Env{st: sut.NewStack(histProto(true))}
+	p0 := histProto(true)
+	p0.MaxOperationTimeDelta = 0
+	e.st0 = sut.NewStack(p0)
 	e.didTr = didtransformer.New(didtransformer.WithBase(true), didtransformer.WithIncludePublishedOperations(true), didtransformer.WithIncludeUnpublishedOperations(true),
 		didtransformer.WithMethodContext([]string{"https://w3id.org/did/method/v1", "https://example.org/ctx"}))
 	e.docTr = doctransformer.New(doctransformer.WithIncludePublishedOperations(true))
@@ -171,6 +175,30 @@ func c20Calls(r *fw.Rand, n int) []c20Call {
 			}
 			return resStr(map[string]interface{}{"doc": s2.Doc, "u": s2.UpdateCommitment, "r": s2.RecoveryCommitment, "d": s2.Deactivated, "v": s2.VersionID}, nil)
 		}})
+		// an operation that names only the start of its window, through the applier whose protocol leaves the window length at zero
+		{
+			p0 := proto
+			p0.MaxOperationTimeDelta = 0
+			h0 := &histCtx{r: r, proto: p0, code: 18, keyType: gen.Ed25519, hasIETF: true}
+			c0 := planStep(h0, 'c', "valid", 1000, nil, nil)
+			at := uint64(2000 + r.Intn(3))
+			u0 := planStep(h0, "urd"[r.Intn(3)], "valid", 2000, nil, func(h *histCtx, s *opStep) {
+				s.Spec.AnchorFrom, s.Spec.AnchorUntil = 2001, 0
+				s.Anchor.Time = at
+			})
+			sfx0 := h0.ch.Suffix
+			calls = append(calls, c20Call{"applier", func(e *c20Env, keep keepFn) string {
+				s1, err := e.st0.Applier.Apply(anchoredOf(c0, sfx0), &protocol.ResolutionModel{})
+				if err != nil {
+					return resStr(nil, err)
+				}
+				s2, err := e.st0.Applier.Apply(anchoredOf(u0, sfx0), s1)
+				if err != nil {
+					return "AFTER-CREATE:" + resStr(s1.Doc, nil) + "|" + resStr(nil, err)
+				}
+				return resStr(map[string]interface{}{"doc": s2.Doc, "u": s2.UpdateCommitment, "r": s2.RecoveryCommitment, "d": s2.Deactivated, "v": s2.VersionID}, nil)
+			}})
+		}
 		// compose
 		doc, _ := startDoc(r, true)
 		pl := safePatchList(r, doc, 5)
@@ -231,6 +259,23 @@ func c20Calls(r *fw.Rand, n int) []c20Call {
 			}
 			return resStr(res, err)
 		}})
+		// the same DID with a network segment between method and suffix (each call its own network name): whatever the handler and
+		// the VDR make of it, they make the same of it when asked concurrently
+		for rep := 0; rep < 2; rep++ {
+			netDID := "did:ion:" + fw.Pick(r, []string{"test", "net", "main", "dev"}) + fmt.Sprint(r.Intn(40)) + ":" + sc.Built.Suffix + ":" + oracle.B64(sc.Built.Request)
+			calls = append(calls, c20Call{"dochandler", func(e *c20Env, keep keepFn) string {
+				res, err := e.handler.ResolveDocument(netDID)
+				return resStr(res, err)
+			}})
+			calls = append(calls, c20Call{"vdr", func(e *c20Env, keep keepFn) string {
+				res, err := e.vdr.Read(netDID)
+				if err != nil {
+					return resStr(nil, err)
+				}
+				b, jerr := res.JSONBytes()
+				return resStr(string(b), jerr)
+			}})
+		}
 		calls = append(calls, c20Call{"dochandler", func(e *c20Env, keep keepFn) string {
 			res, err := e.handler.ProcessOperation(sreq)
 			if err == nil {
@@ -438,7 +483,25 @@ func c20Stress(c *fw.Case, goroutines, procs, ncalls int) {
 		}(g)
 	}
 	close(startGate)
-	wg.Wait()
+	// a call that never returns is a lock-up under concurrency (every call returns within milliseconds when made alone): reported
+	// here with the goroutine dump, long before the case watchdog
+	finished := make(chan struct{})
+	go func() { wg.Wait(); close(finished) }()
+	select {
+	case <-finished:
+	case <-time.After(120 * time.Second):
+		buf := make([]byte, 1<<17)
+		buf = buf[:runtime.Stack(buf, true)]
+		stuck := map[string]int{}
+		for i := range calls {
+			if got[i] == "" {
+				stuck[calls[i].comp]++
+			}
+		}
+		c.Failf("lock-up:stress", map[string]interface{}{"goroutines": goroutines, "GOMAXPROCS": procs, "calls_not_returned_by_component": stuck, "stacks": firstN(string(buf), 8000)},
+			"concurrent calls on shared instances did not all return within 120 s (%v calls outstanding)", stuck)
+		return
+	}
 	if !seqFirst {
 		sequential()
 	}
